@@ -7,11 +7,6 @@ namespace Gql
 
 /-! ### Well-formed ("self-contained") schemas — a decidable predicate -/
 
-def Schema.directives : Schema → List DirectiveDef
-  | [] => []
-  | .directive d :: rest => d :: Schema.directives rest
-  | _ :: rest => Schema.directives rest
-
 def Schema.typeNames (s : Schema) : List Name := s.types.map (·.name)
 
 def Schema.declared (s : Schema) (n : Name) : Bool := s.typeNames.contains n
